@@ -1538,18 +1538,21 @@ func (c *Compiler) compileRepeatMin(sub *syntax.Regexp, minCount int, nonGreedy 
 		return c.compilePlus(sub, nonGreedy)
 	}
 
-	// Concatenate minCount copies + star
+	// Concatenate minCount-1 copies + plus, exactly like syntax.Simplify (x{2,} is
+	// x x+). Emitting minCount copies + star gives the same match bounds but other
+	// capture positions when sub can match empty: `(a|$){2,}` on "aa" must report
+	// group 1 as [1 2], an extra empty iteration [2 2] has to die in the x+ loop.
 	var subs []*syntax.Regexp
-	for i := 0; i < minCount; i++ {
+	for i := 0; i < minCount-1; i++ {
 		subs = append(subs, sub)
 	}
-	// Create synthetic star with correct NonGreedy flag
+	// Create synthetic plus with correct NonGreedy flag
 	starFlags := syntax.Flags(0)
 	if nonGreedy {
 		starFlags |= syntax.NonGreedy
 	}
 	subs = append(subs, &syntax.Regexp{
-		Op:    syntax.OpStar,
+		Op:    syntax.OpPlus,
 		Flags: starFlags,
 		Sub:   []*syntax.Regexp{sub},
 	})
